@@ -354,6 +354,11 @@ func runConfig(t *testing.T, rep *vh.Report, env vh.Env, ci, perConfig, only int
 			}
 			if gates&gLifetime != 0 {
 				sess.LifetimeDeadline = time.Now().Add(-time.Duration(1+r.Intn(48)) * time.Hour)
+				if r.Intn(4) == 0 {
+					// the lifetime deadline absent altogether (zero time): no lifetime is left of it either
+					// (added after seeded change C01n)
+					sess.LifetimeDeadline = time.Time{}
+				}
 			}
 			if gates&gRefreshDue != 0 {
 				sess.RefreshDeadline = time.Now().Add(-time.Duration(1+r.Intn(60)) * time.Minute)
